@@ -546,6 +546,21 @@ func m3GenCase(r *Rng, pf m3Profile, idx int) *m3Case {
 			tags = m3Tags(r, r.Range(9, 16)) // around and beyond the capacity of a pooled tag slice (10)
 			cls("tags-9-16")
 		}
+		if kind == "hist" && r.Chance(12) {
+			// the histogram's OWN tags use the name a bucket tag has in this configuration: the bucket tags come
+			// "additionally", the metric then carries that name twice and the user's value is still there
+			t2 := map[string]string{}
+			for k, v := range tags {
+				t2[k] = v
+			}
+			if r.Bool() {
+				t2[cs.rangeName] = "customer-photos"
+			} else {
+				t2[cs.idName] = "0007"
+			}
+			tags = t2
+			cls("hist-own-tag-named-like-a-bucket-tag")
+		}
 		if edgeTags && kind == "hist" {
 			tags = m3Tags(r, r.Range(11, 13))
 			cls("hist-tags-13-15")
